@@ -628,6 +628,81 @@ func randomSeq(P string, g *prng.R, maxLen int) c18Case {
 	return cs
 }
 
+// runBulk grows a property to n elements and drains it again with Remove at
+// positions chosen by the pattern, comparing with the model at every step of
+// the drain: behaviour that depends on how long the list once was (capacity
+// management) is out of reach of the short sequences above.
+func (c *c18) runBulk(P string, n int, pattern string, g *prng.R) {
+	r := c.r
+	r.Eval(1)
+	pv, model, why := newProp(P, 0)
+	if why != "" {
+		return
+	}
+	cs := c18Case{Prop: P, Kinds: []string{"IRI"}, Raw: [][3]int{{n, 0, 0}}}
+	cs.OpsText = []string{fmt.Sprintf("Append x %d, then Remove by pattern %q until empty", n, pattern)}
+	fail := func(step int, op c18Op, w string) {
+		r.Violate(verdict.Sig{Rule: "C18.sequence-diverged", Site: "vocab.*Property." + op.Op, Feature: "long list, after " + op.Op + ": " + featureOf(w)}, cs, map[string]interface{}{"step": step, "why": w, "length_before": len(model), "pattern": pattern, "grown_to": n})
+	}
+	for i := 0; i < n; i++ {
+		op := c18Op{Op: "Append", Val: mkVal("IRI", 5000+i)}
+		if i%3 == 1 {
+			op = c18Op{Op: "Prepend", Val: mkVal("IRI", 5000+i)}
+		}
+		var w string
+		model, w = applyOp(pv, model, op, false)
+		if w == "" && (i%8 == 7 || i == n-1) {
+			w = c18Check(pv, model)
+		}
+		if w != "" {
+			fail(i, op, w)
+			return
+		}
+	}
+	step := 0
+	for len(model) > 0 {
+		var idx int
+		switch pattern {
+		case "front":
+			idx = 0
+		case "back":
+			idx = len(model) - 1
+		case "middle":
+			idx = len(model) / 2
+		case "second":
+			idx = 1 % len(model)
+		default:
+			idx = g.Intn(len(model))
+		}
+		op := c18Op{Op: "Remove", I: idx}
+		var w string
+		model, w = applyOp(pv, model, op, false)
+		if w == "" {
+			w = c18Check(pv, model)
+		}
+		if w != "" {
+			fail(n+step, op, w)
+			return
+		}
+		step++
+		// now and then the list grows a little again
+		if pattern == "random" && g.Chance(1, 6) {
+			op := c18Op{Op: "Insert", I: g.Intn(len(model) + 1), Val: mkVal("IRI", 9000+step)}
+			model, w = applyOp(pv, model, op, false)
+			if w == "" {
+				w = c18Check(pv, model)
+			}
+			if w != "" {
+				fail(n+step, op, w)
+				return
+			}
+		}
+	}
+	r.Count("nonfunctional.bulk_sequences", 1)
+	r.Count("nonfunctional.bulk_ops", n+step)
+	r.NonTrivial(fmt.Sprintf("bulk|%s|%d|%s", P, n, pattern))
+}
+
 // functional slot sequences
 func (c *c18) runFunctional(P string, kinds []string, seq []int) {
 	r := c.r
@@ -763,6 +838,23 @@ func runC18(id string) int {
 				}
 				ch <- func() { c.runSeq(cs) }
 			})
+		}
+		// long lists: grown to 33..140 elements, then drained
+		patterns := []string{"front", "back", "middle", "second", "random"}
+		if *tier == "thorough" {
+			for _, n := range []int{33, 48, 65, 70, 130, 140} {
+				for _, pat := range patterns {
+					n, pat := n, pat
+					ch <- func() { c.runBulk(P, n, pat, prng.New(r.SeedV, "C18.bulk."+P+"."+pat, n)) }
+				}
+			}
+		} else {
+			g0 := prng.New(r.SeedV, "C18.bulk.pick."+P)
+			for k := 0; k < 2; k++ {
+				n := []int{33, 40, 65, 70}[g0.Intn(4)] + g0.Intn(4)
+				pat := patterns[g0.Intn(len(patterns))]
+				ch <- func() { c.runBulk(P, n, pat, prng.New(r.SeedV, "C18.bulk."+P+"."+pat, n)) }
+			}
 		}
 		nRand := 200
 		if *tier == "thorough" {
